@@ -1,5 +1,4 @@
-import OmplModel.Proofs.SpaceInterpShape
-import OmplModel.Proofs.SpaceInterpSO2
+import OmplModel.Proofs.SpaceInterpExamples
 /-!
 C07 — property theorems for `StateSpace::interpolate` (model: `Model/SpaceInterp.lean`).
 
@@ -14,7 +13,7 @@ open scoped OmplModel.SpaceInterp.RealNum
 attribute [-instance] OmplModel.Num.instOfNat
 
 namespace OmplModel.Props.C07
-open OmplModel OmplModel.Space OmplModel.SpaceInterp Real
+open OmplModel OmplModel.Space OmplModel.SpaceInterp OmplModel.SpaceInterp.Ex Real
 
 /-! ## 0. shape ([AF]: any `Num`, any SO(2) leaf `f`, any Klein wrap `wr`) -/
 
@@ -24,16 +23,10 @@ theorem interp_wellTyped {α : Type} [Num α] (f : α → α → α → α) (wr 
     wellTyped sp (interpolateW f wr sp a b t) = true :=
   interpolateW_wellTyped f wr sp a b t ha hb
 
-/-- SE(2) = R^2 x SO(2), weights 1 and 1/2 -/
-noncomputable def se2 : Space ℝ := .ccons 1 (.rv [0, 0] [1, 1]) (.ccons (1 / 2) .so2 .cnil)
-/-- a nested compound: [SE(2), time, SO(2)] -/
-noncomputable def nested : Space ℝ :=
-  .ccons 2 se2 (.ccons 1 (.time true 0 1) (.ccons 3 (.wrap .so2) .cnil))
-
-example (t : ℝ) : wellTyped se2
-    (interpolate se2 (.ccons (.rv [0, 1]) (.ccons (.so2 3) .cnil))
-      (.ccons (.rv [1, 0]) (.ccons (.so2 (-3)) .cnil)) t) = true :=
-  interp_wellTyped _ _ _ _ _ _ (by simp [se2, wellTyped]) (by simp [se2, wellTyped])
+example (t : ℝ) : wellTyped se2 (interpolate se2 se2A se2B t) = true :=
+  interp_wellTyped _ _ _ _ _ _ se2A_wt se2B_wt
+example (t : ℝ) : wellTyped nested (interpolateOld nested nestedA nestedB t) = true :=
+  interp_wellTyped _ _ _ _ _ _ nestedA_wt nestedB_wt
 
 /-- [AF] Torus does not override interpolate: it is its compound [so2, so2] -/
 theorem interp_torus_expand {α : Type} [Num α] (f : α → α → α → α) (wr : α → α) (R r : α) (a b : St α) (t : α)
@@ -104,10 +97,7 @@ theorem so2_interp_dist_prop (a b t : ℝ) (ha : so2InB a = true) (hb : so2InB b
     (ht0 : 0 ≤ t) (ht1 : t ≤ 1) : so2Dist a (so2Interp a b t) = t * so2Dist a b := by
   rw [so2InB_iff] at *; exact so2Interp_dist_prop ha.1 ha.2 hb.1 hb.2 ht0 ht1
 
-/-- the long-way pair 3, -3 (|diff| = 6 > pi) is in bounds -/
-theorem three_inB : so2InB (3 : ℝ) = true ∧ so2InB (-3 : ℝ) = true := by
-  constructor <;> rw [so2InB_iff] <;> constructor <;> linarith [Real.pi_gt_three]
-
+-- non-vacuity: the long-way pair 3, -3 (|diff| = 6 > pi), `Ex.three_inB`
 example : so2Interp (3 : ℝ) (-3) 0 = 3 := so2_interp_zero _ _ three_inB.1
 example : so2Interp (3 : ℝ) (-3) 1 = -3 := so2_interp_one _ _ three_inB.2
 example : so2InB (so2Interp (3 : ℝ) (-3) (1 / 2)) = true :=
@@ -117,5 +107,117 @@ example : so2Interp (so2Interp (3 : ℝ) (-3) (1 / 2)) (-3) (1 / 2)
   so2_interp_reparam _ _ _ _ three_inB.1 three_inB.2 (by norm_num) (by norm_num) (by norm_num) (by norm_num)
 example : so2Dist (3 : ℝ) (so2Interp 3 (-3) (1 / 3)) = 1 / 3 * so2Dist 3 (-3) :=
   so2_interp_dist_prop _ _ _ three_inB.1 three_inB.2 (by norm_num) (by norm_num)
+
+/-! ## 3. R^n / time leaf -/
+
+/-- [EX] `from + (to - from) * 0 = from` -/
+theorem lerp_zero (a b : ℝ) : lerp a b 0 = a := SpaceInterp.lerp_zero a b
+/-- [EX] `from + (to - from) * 1 = to` -/
+theorem lerp_one (a b : ℝ) : lerp a b 1 = b := SpaceInterp.lerp_one a b
+/-- [EX] re-parameterisation of one coordinate -/
+theorem lerp_reparam (a b s u : ℝ) : lerp (lerp a b s) b u = lerp a b (s + (1 - s) * u) :=
+  SpaceInterp.lerp_reparam a b s u
+
+example : lerp (1 : ℝ) 3 0 = 1 := lerp_zero _ _
+example : lerp (1 : ℝ) 3 1 = 3 := lerp_one _ _
+example : lerp (lerp (1 : ℝ) 3 (1 / 2)) 3 (1 / 2) = lerp 1 3 (1 / 2 + (1 - 1 / 2) * (1 / 2)) :=
+  lerp_reparam _ _ _ _
+
+/-- [EX] R^n: the as-coded bounds predicate (±eps slack) is convex, for any bounds vectors -/
+theorem rv_inbounds_convex (xs ys lo hi : List ℝ) (t : ℝ) (hx : rvInB xs lo hi = true)
+    (hy : rvInB ys lo hi = true) (ht0 : 0 ≤ t) (ht1 : t ≤ 1) :
+    rvInB (rvInterp xs ys t) lo hi = true := rvInB_interp hx hy ht0 ht1
+
+example : rvInB (rvInterp [0, 1] [1, 0] (1 / 3)) [0, 0] [1, (1 : ℝ)] = true :=
+  rv_inbounds_convex _ _ _ _ _ (by simp [rvInB]; norm_num) (by simp [rvInB]; norm_num)
+    (by norm_num) (by norm_num)
+
+/-- [EX] R^n: Euclidean distance from `from` is proportional to t (t ≥ 0) -/
+theorem rv_dist_prop (xs ys : List ℝ) (t : ℝ) (ht0 : 0 ≤ t) :
+    Real.sqrt (sqSum xs (rvInterp xs ys t)) = t * Real.sqrt (sqSum xs ys) :=
+  sqrt_sqSum_interp xs ys ht0
+
+example : Real.sqrt (sqSum [0, 1] (rvInterp [0, 1] [1, 0] (1 / 3)))
+    = 1 / 3 * Real.sqrt (sqSum [0, 1] [1, (0 : ℝ)]) := rv_dist_prop _ _ _ (by norm_num)
+
+/-! ## 4. all spaces (arbitrarily nested compounds), by induction over `Space ℝ`
+
+Side conditions (Bool predicates on the space, `Proofs/SpaceInterpCompound.lean`):
+`noSO3Klein` — no SO(3) and no Klein bottle anywhere inside; `reparamOk` — additionally no discrete
+and no Mobius; `geodesic false` (model) — R^n, SO(2), time, torus and compounds/wrappers of these. -/
+
+/-- [EX] t = 0 returns `from` exactly.  Covers rv, so2, time, disc, compound (nested), torus, sphere,
+mobius, wrap; excludes so3 and klein. -/
+theorem interp_zero (sp : Space ℝ) (a b : St ℝ) (hsp : noSO3Klein sp = true)
+    (hwa : wellTyped sp a = true) (hwb : wellTyped sp b = true) (hba : inBounds sp a = true) :
+    interpolate sp a b 0 = a := interpolate_zero sp a b hsp hwa hwb hba
+
+example : interpolate se2 se2A se2B 0 = se2A := interp_zero _ _ _ se2_ok.1 se2A_wt se2B_wt se2A_inB
+example : interpolate nested nestedA nestedB 0 = nestedA :=
+  interp_zero _ _ _ nested_ok.1 nestedA_wt nestedB_wt nestedA_inB
+example : interpolate mix mixA mixB 0 = mixA := interp_zero _ _ _ mix_ok mixA_wt mixB_wt mixA_inB
+
+/-- [EX] t = 1 returns `to` exactly.  Covers rv, so2 (both branches), time, disc, compound (nested),
+torus, sphere, mobius, wrap; excludes so3 (only ±to) and klein. -/
+theorem interp_one (sp : Space ℝ) (a b : St ℝ) (hsp : noSO3Klein sp = true)
+    (hwa : wellTyped sp a = true) (hwb : wellTyped sp b = true) (hbb : inBounds sp b = true) :
+    interpolate sp a b 1 = b := interpolate_one sp a b hsp hwa hwb hbb
+
+example : interpolate se2 se2A se2B 1 = se2B := interp_one _ _ _ se2_ok.1 se2A_wt se2B_wt se2B_inB
+example : interpolate nested nestedA nestedB 1 = nestedB :=
+  interp_one _ _ _ nested_ok.1 nestedA_wt nestedB_wt nestedB_inB
+example : interpolate mix mixA mixB 1 = mixB := interp_one _ _ _ mix_ok mixA_wt mixB_wt mixB_inB
+
+/-- [EX] the result satisfies the bounds as coded.  Covers rv, so2, time (bounded and unbounded), disc,
+compound (nested), torus, sphere, mobius, wrap; excludes so3 and klein. -/
+theorem interp_inbounds (sp : Space ℝ) (a b : St ℝ) (t : ℝ) (hsp : noSO3Klein sp = true)
+    (hwa : wellTyped sp a = true) (hwb : wellTyped sp b = true)
+    (hba : inBounds sp a = true) (hbb : inBounds sp b = true) (ht0 : 0 ≤ t) (ht1 : t ≤ 1) :
+    inBounds sp (interpolate sp a b t) = true :=
+  interpolate_inBounds sp a b t hsp hwa hwb hba hbb ht0 ht1
+
+example : inBounds se2 (interpolate se2 se2A se2B (1 / 3)) = true :=
+  interp_inbounds _ _ _ _ se2_ok.1 se2A_wt se2B_wt se2A_inB se2B_inB (by norm_num) (by norm_num)
+example : inBounds nested (interpolate nested nestedA nestedB (1 / 3)) = true :=
+  interp_inbounds _ _ _ _ nested_ok.1 nestedA_wt nestedB_wt nestedA_inB nestedB_inB
+    (by norm_num) (by norm_num)
+example : inBounds mix (interpolate mix mixA mixB (1 / 3)) = true :=
+  interp_inbounds _ _ _ _ mix_ok mixA_wt mixB_wt mixA_inB mixB_inB (by norm_num) (by norm_num)
+
+/-- [EX] re-parameterisation, exact: going on from the point at `s` by the fraction `u` of the rest is
+the point at `s + (1 - s) u`.  Covers rv, so2, time, torus, sphere, compounds (nested), wrap;
+excludes disc, so3, mobius, klein. -/
+theorem interp_reparam (sp : Space ℝ) (a b : St ℝ) (s u : ℝ) (hsp : reparamOk sp = true)
+    (hwa : wellTyped sp a = true) (hwb : wellTyped sp b = true)
+    (hba : inBounds sp a = true) (hbb : inBounds sp b = true)
+    (hs0 : 0 ≤ s) (hs1 : s ≤ 1) (hu0 : 0 ≤ u) (hu1 : u ≤ 1) :
+    interpolate sp (interpolate sp a b s) b u = interpolate sp a b (s + (1 - s) * u) :=
+  interpolate_reparam sp a b s u hsp hwa hwb hba hbb hs0 hs1 hu0 hu1
+
+example : interpolate se2 (interpolate se2 se2A se2B (1 / 2)) se2B (1 / 3)
+    = interpolate se2 se2A se2B (1 / 2 + (1 - 1 / 2) * (1 / 3)) :=
+  interp_reparam _ _ _ _ _ se2_ok.2.1 se2A_wt se2B_wt se2A_inB se2B_inB
+    (by norm_num) (by norm_num) (by norm_num) (by norm_num)
+example : interpolate nested (interpolate nested nestedA nestedB (1 / 2)) nestedB (1 / 3)
+    = interpolate nested nestedA nestedB (1 / 2 + (1 - 1 / 2) * (1 / 3)) :=
+  interp_reparam _ _ _ _ _ nested_ok.2.1 nestedA_wt nestedB_wt nestedA_inB nestedB_inB
+    (by norm_num) (by norm_num) (by norm_num) (by norm_num)
+
+/-- [EX] proportional distance: the point at `t` is at distance `t * d(from, to)` from `from`
+(`dist` = the model's real-arithmetic-shaped distance; no sign condition on compound weights).
+Covers rv, so2, time, torus, weighted compounds (nested), wrap; excludes so3 and the non-geodesic
+spaces (disc, mobius, klein, sphere). -/
+theorem interp_dist_prop (sp : Space ℝ) (a b : St ℝ) (t : ℝ) (hsp : geodesic false sp = true)
+    (hwa : wellTyped sp a = true) (hwb : wellTyped sp b = true)
+    (hba : inBounds sp a = true) (hbb : inBounds sp b = true) (ht0 : 0 ≤ t) (ht1 : t ≤ 1) :
+    dist sp a (interpolate sp a b t) = t * dist sp a b :=
+  interpolate_dist_prop sp a b t hsp hwa hwb hba hbb ht0 ht1
+
+example : dist se2 se2A (interpolate se2 se2A se2B (1 / 3)) = 1 / 3 * dist se2 se2A se2B :=
+  interp_dist_prop _ _ _ _ se2_ok.2.2 se2A_wt se2B_wt se2A_inB se2B_inB (by norm_num) (by norm_num)
+example : dist nested nestedA (interpolate nested nestedA nestedB (1 / 3))
+    = 1 / 3 * dist nested nestedA nestedB :=
+  interp_dist_prop _ _ _ _ nested_ok.2.2 nestedA_wt nestedB_wt nestedA_inB nestedB_inB
+    (by norm_num) (by norm_num)
 
 end OmplModel.Props.C07
